@@ -348,6 +348,14 @@ def h_history_contracts(c, pkg, length):
                     log=list(log))
         else:
             c.check('inactive_contract_is_not_reachable', r[0] == 'raise' and not log, got=repr(r)[:120])
+        # ... and the same from the second script of an authorization run (witness, lock)
+        del log[:]
+        r = outcome_of(F.run_auth_scripts, [P.compile_script('true pop0'), P.compile_script(f'push d0 push x{cid.hex()} invoke true')])
+        if cid in ref_c:
+            c.check('active_contract_is_reachable_from_a_later_script', r[0] == 'ok' and r[1] is True and
+                    log == [getattr(ref_c[cid], 'tag', cid.decode())], got=repr(r)[:120], log=list(log))
+        else:
+            c.check('inactive_contract_is_not_reachable_from_a_later_script', r[0] == 'ok' and r[1] is False and not log, got=repr(r)[:120])
     c.reach('history_done')
 
 
